@@ -1,6 +1,10 @@
 package c18
 
 import (
+	"fmt"
+	"os"
+	"net"
+	"sync"
 	"testing"
 	"time"
 
@@ -29,13 +33,14 @@ func bound() int {
 
 // S1: CreatePermission for a new peer while the allocation's lifetime timer fires.
 func s1() *sched.Scenario {
-	return &sched.Scenario{Name: "S1-perm-vs-lifetime", Bound: bound(), Opt: vsched.Options{FireSlack: time.Millisecond, WritePref: true},
+	return &sched.Scenario{Name: "S1-perm-vs-lifetime", Bound: bound(), FreeBound: -1, Opt: vsched.Options{FireSlack: time.Millisecond, WritePref: true},
 		Body: func(*vsched.Sched) (func() []string, func()) {
 			w := sched.NewBW(sched.BCfg{CB: yieldCB})
 			c := w.NewClient("c1")
 			vsched.Go("client", func() {
 				c.Do(wire.Allocate, func(b *wire.B) { udp(b); b.U32(wire.AttrLifetime, 1) })
 				vsched.IdleSleep(time.Second - time.Nanosecond)
+				vsched.Mark()
 				c.Do(wire.CreatePermission, peer("A"))
 			})
 
@@ -43,13 +48,246 @@ func s1() *sched.Scenario {
 		}}
 }
 
-func scenarios() []*sched.Scenario { return []*sched.Scenario{s1()} }
+type flags struct {
+	mu   sync.Mutex
+	done map[string]bool
+}
+
+func (f *flags) set(k string) {
+	f.mu.Lock()
+	if f.done == nil {
+		f.done = map[string]bool{}
+	}
+	f.done[k] = true
+	f.mu.Unlock()
+}
+
+func (f *flags) need(keys ...string) func() []string {
+	return func() []string {
+		f.mu.Lock()
+		defer f.mu.Unlock()
+		var out []string
+		for _, k := range keys {
+			if !f.done[k] {
+				out = append(out, "stuck:"+k+"-never-completed")
+			}
+		}
+
+		return out
+	}
+}
+
+var opt = vsched.Options{FireSlack: time.Millisecond, WritePref: true}
+
+func chanAttrs(n uint16, p string) func(b *wire.B) {
+	return func(b *wire.B) { b.U32(wire.AttrChannelNumber, uint32(n)<<16); peer(p)(b) }
+}
+
+func lifetime(l uint32) func(b *wire.B) { return func(b *wire.B) { b.U32(wire.AttrLifetime, l) } }
+
+// S2: ChannelBind for a new peer while the allocation's lifetime timer fires.
+func s2() *sched.Scenario {
+	return &sched.Scenario{Name: "S2-chan-vs-lifetime", Bound: bound(), FreeBound: -1, Opt: opt,
+		Body: func(*vsched.Sched) (func() []string, func()) {
+			w := sched.NewBW(sched.BCfg{CB: yieldCB})
+			c := w.NewClient("c1")
+			vsched.Go("client", func() {
+				c.Do(wire.Allocate, func(b *wire.B) { udp(b); b.U32(wire.AttrLifetime, 1) })
+				vsched.IdleSleep(time.Second - time.Nanosecond)
+				vsched.Mark()
+				c.Do(wire.ChannelBind, chanAttrs(0x4000, "A"))
+			})
+
+			return nil, func() { _ = w.Srv.Close() }
+		}}
+}
+
+// S3: Refresh racing the lifetime timer, then a new Allocate and its own expiry.
+func s3() *sched.Scenario {
+	return &sched.Scenario{Name: "S3-refresh-vs-lifetime-realloc", Bound: bound(), FreeBound: -1, Opt: opt,
+		Body: func(*vsched.Sched) (func() []string, func()) {
+			w := sched.NewBW(sched.BCfg{})
+			c := w.NewClient("c1")
+			var f flags
+			vsched.Go("client", func() {
+				c.Do(wire.Allocate, func(b *wire.B) { udp(b); b.U32(wire.AttrLifetime, 1) })
+				vsched.IdleSleep(time.Second - time.Nanosecond)
+				vsched.Mark()
+				c.Fire(wire.Refresh, lifetime(3))
+				vsched.IdleSleep(10 * time.Millisecond)
+				c.Inbox = nil
+				c.Do(wire.Allocate, func(b *wire.B) { udp(b); b.U32(wire.AttrLifetime, 2) })
+				vsched.IdleSleep(5 * time.Second)
+				f.set("client")
+			})
+
+			return f.need("client"), func() { _ = w.Srv.Close() }
+		}}
+}
+
+// S4: a peer datagram arrives while the client deletes the allocation.
+func s4() *sched.Scenario {
+	return &sched.Scenario{Name: "S4-peer-data-vs-refresh0", Bound: bound(), FreeBound: -1, Opt: opt,
+		Body: func(*vsched.Sched) (func() []string, func()) {
+			w := sched.NewBW(sched.BCfg{CB: yieldCB})
+			c := w.NewClient("c1")
+			pa := w.NewPeer("A")
+			var f flags
+			vsched.Go("client", func() {
+				r := c.Do(wire.Allocate, udp)
+				relay, _ := r.XorAddr(wire.AttrXORRelayedAddress)
+				c.Do(wire.CreatePermission, peer("A"))
+				vsched.Mark()
+				vsched.Go("peer", func() {
+					_, _ = pa.WriteTo([]byte("hello"), relay)
+					f.set("peer")
+				})
+				c.Do(wire.Refresh, lifetime(0))
+				f.set("client")
+			})
+
+			return f.need("client", "peer"), func() { _ = w.Srv.Close() }
+		}}
+}
+
+// S5: CreatePermission refresh racing the permission timer, then a later install.
+func s5() *sched.Scenario {
+	return &sched.Scenario{Name: "S5-perm-refresh-vs-timer", Bound: bound(), FreeBound: -1, Opt: opt,
+		Body: func(*vsched.Sched) (func() []string, func()) {
+			w := sched.NewBW(sched.BCfg{Perm: time.Second, CB: yieldCB})
+			c := w.NewClient("c1")
+			var f flags
+			vsched.Go("client", func() {
+				c.Do(wire.Allocate, udp)
+				c.Do(wire.CreatePermission, peer("A"))
+				vsched.IdleSleep(time.Second - time.Nanosecond)
+				vsched.Mark()
+				c.Do(wire.CreatePermission, peer("A"))
+				vsched.IdleSleep(2 * time.Second)
+				c.Do(wire.CreatePermission, peer("A"))
+				f.set("client")
+			})
+
+			return f.need("client"), func() { _ = w.Srv.Close() }
+		}}
+}
+
+// S6: ChannelBind refresh racing the channel timer.
+func s6() *sched.Scenario {
+	return &sched.Scenario{Name: "S6-chan-refresh-vs-timer", Bound: bound(), FreeBound: -1, Opt: opt,
+		Body: func(*vsched.Sched) (func() []string, func()) {
+			w := sched.NewBW(sched.BCfg{Chan: time.Second, CB: yieldCB})
+			c := w.NewClient("c1")
+			var f flags
+			vsched.Go("client", func() {
+				c.Do(wire.Allocate, udp)
+				c.Do(wire.ChannelBind, chanAttrs(0x4000, "A"))
+				vsched.IdleSleep(time.Second - time.Nanosecond)
+				vsched.Mark()
+				c.Do(wire.ChannelBind, chanAttrs(0x4000, "A"))
+				vsched.IdleSleep(2 * time.Second)
+				c.Do(wire.ChannelBind, chanAttrs(0x4000, "A"))
+				f.set("client")
+			})
+
+			return f.need("client"), func() { _ = w.Srv.Close() }
+		}}
+}
+
+// S7: TCP allocation: Connect, duplicate Connect (446), then the manager must still serve a Refresh.
+func s7() *sched.Scenario {
+	return &sched.Scenario{Name: "S7-connect-dup-then-refresh", Bound: bound(), FreeBound: -1, Opt: opt,
+		Body: func(*vsched.Sched) (func() []string, func()) {
+			w := sched.NewBW(sched.BCfg{Stream: true})
+			c := w.NewClient("c1")
+			if _, err := w.Net.ListenTCPAddr("tcp4", &net.TCPAddr{IP: vtx.PeerSpec["B"].IP, Port: 5000}); err != nil {
+				panic(err)
+			}
+			var f flags
+			vsched.Go("client", func() {
+				c.Do(wire.Allocate, func(b *wire.B) { b.U32(wire.AttrRequestedTransport, 6<<24) })
+				c.Do(wire.Connect, peer("B"))
+				r := c.Do(wire.Connect, peer("B"))
+				if r.Class != wire.Error || r.ErrorCode() != 446 {
+					vsched.Fail(fmt.Sprintf("second-connect-not-446:%d/%d", r.Class, r.ErrorCode()))
+				}
+				c.Do(wire.Refresh, lifetime(600))
+				f.set("client")
+			})
+
+			return f.need("client"), func() { _ = w.Srv.Close() }
+		}}
+}
+
+// S8: Server.Close racing a request and a peer datagram.
+func s8() *sched.Scenario {
+	return &sched.Scenario{Name: "S8-server-close-vs-traffic", Bound: bound(), FreeBound: -1, Opt: opt,
+		Body: func(*vsched.Sched) (func() []string, func()) {
+			w := sched.NewBW(sched.BCfg{CB: yieldCB})
+			c := w.NewClient("c1")
+			pa := w.NewPeer("A")
+			var f flags
+			vsched.Go("client", func() {
+				r := c.Do(wire.Allocate, udp)
+				relay, _ := r.XorAddr(wire.AttrXORRelayedAddress)
+				c.Do(wire.CreatePermission, peer("A"))
+				vsched.Mark()
+				vsched.Go("peer", func() {
+					_, _ = pa.WriteTo([]byte("hello"), relay)
+					f.set("peer")
+				})
+				vsched.Go("closer", func() {
+					_ = w.Srv.Close()
+					f.set("closer")
+				})
+				c.Fire(wire.CreatePermission, peer("B"))
+				f.set("client")
+			})
+
+			return f.need("client", "peer", "closer"), nil
+		}}
+}
+
+// S10: two stream clients of one listener share a manager.
+func s10() *sched.Scenario {
+	return &sched.Scenario{Name: "S10-two-stream-clients", Bound: bound() - 1, FreeBound: 2, Opt: opt,
+		Body: func(*vsched.Sched) (func() []string, func()) {
+			w := sched.NewBW(sched.BCfg{Stream: true})
+			var f flags
+			c1, c2 := w.NewClient("c1"), w.NewClient("c2")
+			vsched.Go("driver", func() {
+				c1.Do(wire.Allocate, udp)
+				c2.Do(wire.Allocate, udp)
+				vsched.Mark()
+				for _, c := range []*sched.BClient{c1, c2} {
+					vsched.Go(c.Name, func() {
+						c.Do(wire.ChannelBind, chanAttrs(0x4000, "A"))
+						c.Do(wire.Refresh, lifetime(0))
+						f.set(c.Name)
+					})
+				}
+			})
+
+			return f.need("c1", "c2"), func() { _ = w.Srv.Close() }
+		}}
+}
+
+func scenarios() []*sched.Scenario {
+	return []*sched.Scenario{s1(), s2(), s3(), s4(), s5(), s6(), s7(), s8(), s10()}
+}
 
 func TestC18Sched(t *testing.T) {
 	r := rep.New("C18")
 	defer r.Write()
 	for _, sc := range scenarios() {
-		for _, desc := range []bool{false, true} {
+		if only := os.Getenv("VERIF_SCENARIO"); only != "" && only != sc.Name {
+			continue
+		}
+		orders := []bool{false}
+		if sc.BothMapOrders {
+			orders = append(orders, true)
+		}
+		for _, desc := range orders {
 			sc.MapDesc = desc
 			sched.Explore(t, sc, r)
 		}
